@@ -12,3 +12,5 @@ import MypyVerif.Props.C11
 import MypyVerif.Props.C10
 import MypyVerif.Props.C15
 import MypyVerif.Props.C17
+import MypyVerif.Props.C13
+import MypyVerif.Props.C08
